@@ -390,6 +390,69 @@ def single_writer_static(res):
     return dict(conn_uses=len(uses), write_capable=writers, outside_write_loop=len(bad))
 
 
+def after_close_script(rnd, sid):
+    """the connection's life goes on after a CloseConnection message: requests (answered or not), then Shutdown — or a
+    caller's own SendMessage(MsgCloseConnection) — which the reader answers with a CloseConnectionResponse / ErrorMessage
+    whose status is NOT Success (the connection stays open) or with Success, then further requests and keep-alives on the
+    same connection. Whatever the client writes after that still belongs to the same outbound stream: whole frames, every
+    request at most once, ids pairwise distinct over the WHOLE connection. (Today's write loop parks for good after a
+    CloseConnection: nothing more is written — C05_nothing_written_after_close_connection; the model comparison pins that.)"""
+    version = rnd.choice([1, 1, 2])
+    b = cc.SB(sid, version=version)
+    b.connect(cur=rnd.choice([1, 2]), mx=2)
+    tag = rnd.randrange(1, 1 << 20) * 64
+    types = [t for t in REQ_TYPES]
+    rnd.shuffle(types)
+    c = 0
+    outstanding = []
+    for _ in range(rnd.randrange(1, 5)):
+        c += 1
+        b.send(c, types[c], rnd.choice([0, 1, 9, 300]), tag + c)
+        outstanding.append(c)
+        if rnd.random() < 0.6:
+            a = outstanding.pop(rnd.randrange(len(outstanding)))
+            b.reply_to(a, resp_type(b.reqs[a]["typ"]), rnd.choice([0, 6, 100]), tag + 100 + a)
+            b.wait(a)
+    c += 1
+    closer = c
+    how = rnd.choice(["shutdown", "shutdown", "send"])
+    if how == "shutdown":
+        b.op("shutdown", caller=closer)
+        b.reqs[closer] = dict(typ=cc.T_CLOSE, len=0, tag=0, api="Shutdown")
+        b.req_index[closer] = b.nseen
+        b.expect()
+    else:
+        b.send(closer, cc.T_CLOSE, 0, 0)
+    refused = rnd.random() < 0.8
+    code = rnd.choice([100, 101, 109, 201, 401, 65535]) if refused else 0
+    rt = rnd.choice([cc.T_CLOSER, cc.T_CLOSER, cc.T_ERR]) if refused else cc.T_CLOSER
+    if outstanding and rnd.random() < 0.4:                     # an earlier request is answered only now
+        a = outstanding.pop()
+        b.reply_to(a, resp_type(b.reqs[a]["typ"]), 5, tag + 200 + a)
+        b.wait(a)
+    b.reply(b.req_index[closer], rt, pl=dict(k="status", code=code))
+    b.wait(closer)
+    # the connection is still there (refused) or closed (accepted Shutdown): traffic goes on
+    later = []
+    for _ in range(rnd.randrange(1, 4)):
+        r = rnd.random()
+        if r < 0.7:
+            c += 1
+            b.send(c, types[c], rnd.choice([0, 2, 40]), tag + c, expect=False)
+            later.append(c)
+            b.expect_none()
+        else:
+            b.keepalive(rnd.randrange(1 << 32))
+            b.expect_none()
+    for a in later:
+        b.wait(a)
+    b.op("drain")
+    b.op("state")
+    sc = b.script()
+    sc["family"] = "after-close"
+    return sc
+
+
 def close_payload_script():
     """SendMessage(MsgCloseConnection, 5 bytes): predicate only (see notes/C05.md)"""
     b = cc.SB("c05-close-payload", version=1)
@@ -427,6 +490,8 @@ def run(tier, seed, replay=None):
             pred_only, scripts = scripts, []
     else:
         scripts = gen_scripts(seed, 2500 if thorough else 400, thorough)
+        ra = random.Random(seed + 17)
+        scripts += [after_close_script(ra, "c05-afterclose-%d" % i) for i in range(240 if thorough else 40)]
         rg = random.Random(seed + 11)
         pred_only = ([close_payload_script()] + [gated_script(rg, "c05-gated-%d" % i) for i in range(120 if thorough else 24)]
                      + [wtimeout_script(rg, "c05-wtimeout-%d" % i) for i in range(120 if thorough else 24)]
